@@ -84,6 +84,218 @@ func main() {
 					return true
 				})
 			}
+			if mode == "splitor" || mode == "hoistcond" {
+				// splitor  : if a || b { ...; return }   ->  if a { ...; return }; if b { ...; return }
+				//            (no else, no init, body ends in return/continue/break/panic)
+				// hoistcond: if f(x) { .. }              ->  cond_N := f(x); if cond_N { .. }
+				//            (statement-list position, no init, condition is a call or a negated call)
+				terminates := func(b *ast.BlockStmt) bool {
+					if len(b.List) == 0 {
+						return false
+					}
+					switch x := b.List[len(b.List)-1].(type) {
+					case *ast.ReturnStmt:
+						return true
+					case *ast.BranchStmt:
+						return x.Tok == token.CONTINUE || x.Tok == token.BREAK || x.Tok == token.GOTO
+					case *ast.ExprStmt:
+						if call, ok := x.X.(*ast.CallExpr); ok {
+							if id, ok := call.Fun.(*ast.Ident); ok && id.Name == "panic" {
+								return true
+							}
+						}
+					}
+					return false
+				}
+				declares := func(b *ast.BlockStmt) bool {
+					// duplicating a body that declares labels would not compile
+					found := false
+					ast.Inspect(b, func(m ast.Node) bool {
+						if _, ok := m.(*ast.LabeledStmt); ok {
+							found = true
+						}
+						return true
+					})
+					return found
+				}
+				var rewrite func(list []ast.Stmt) []ast.Stmt
+				rewrite = func(list []ast.Stmt) []ast.Stmt {
+					var out []ast.Stmt
+					for _, st := range list {
+						ifs, ok := st.(*ast.IfStmt)
+						if !ok || ifs.Init != nil {
+							out = append(out, st)
+							continue
+						}
+						if mode == "splitor" {
+							be, isOr := ifs.Cond.(*ast.BinaryExpr)
+							if isOr && be.Op == token.LOR && ifs.Else == nil && terminates(ifs.Body) && !declares(ifs.Body) {
+								out = append(out, &ast.IfStmt{Cond: be.X, Body: ifs.Body}, &ast.IfStmt{Cond: be.Y, Body: ifs.Body})
+								n++
+								continue
+							}
+						}
+						if mode == "hoistcond" {
+							c := ifs.Cond
+							neg := false
+							if u, isU := c.(*ast.UnaryExpr); isU && u.Op == token.NOT {
+								c = u.X
+								neg = true
+							}
+							if call, isCall := c.(*ast.CallExpr); isCall {
+								if tv, ok := info.Types[call]; ok && tv.Type != nil && tv.Type.String() == "bool" {
+									n++
+									id := ast.NewIdent(fmt.Sprintf("cond_%d", n))
+									out = append(out, &ast.AssignStmt{Lhs: []ast.Expr{id}, Tok: token.DEFINE, Rhs: []ast.Expr{call}})
+									if neg {
+										ifs.Cond = &ast.UnaryExpr{Op: token.NOT, X: ast.NewIdent(id.Name)}
+									} else {
+										ifs.Cond = ast.NewIdent(id.Name)
+									}
+								}
+							}
+						}
+						out = append(out, st)
+					}
+					return out
+				}
+				ast.Inspect(f, func(nd ast.Node) bool {
+					switch x := nd.(type) {
+					case *ast.FuncDecl:
+						// a new declaration may not be jumped over by a goto
+						hasGoto := false
+						ast.Inspect(x, func(m ast.Node) bool {
+							if b, ok := m.(*ast.BranchStmt); ok && b.Tok == token.GOTO {
+								hasGoto = true
+							}
+							return true
+						})
+						if hasGoto && mode == "hoistcond" {
+							return false
+						}
+					case *ast.BlockStmt:
+						x.List = rewrite(x.List)
+					case *ast.CaseClause:
+						x.Body = rewrite(x.Body)
+					case *ast.CommClause:
+						x.Body = rewrite(x.Body)
+					}
+					return true
+				})
+			}
+			if mode == "nestif" {
+				// if a && b { X }  ->  if a { if b { X } }   (no else; behaviour preserving)
+				ast.Inspect(f, func(nd ast.Node) bool {
+					ifs, ok := nd.(*ast.IfStmt)
+					if !ok || ifs.Else != nil {
+						return true
+					}
+					be, ok := ifs.Cond.(*ast.BinaryExpr)
+					if !ok || be.Op != token.LAND {
+						return true
+					}
+					inner := &ast.IfStmt{Cond: be.Y, Body: ifs.Body}
+					ifs.Cond = be.X
+					ifs.Body = &ast.BlockStmt{List: []ast.Stmt{inner}}
+					n++
+					return true
+				})
+			}
+			if mode == "switchif" {
+				// switch { case a: A; case b, c: B; default: D }  ->  if a {A} else if b || c {B} else {D}
+				// only tagless switches without init, fallthrough, or a break that targets the switch
+				breaksOut := func(body *ast.BlockStmt) bool {
+					found := false
+					var walk func(n ast.Node, depth int)
+					walk = func(n ast.Node, depth int) {
+						ast.Inspect(n, func(m ast.Node) bool {
+							if m == n {
+								return true
+							}
+							switch x := m.(type) {
+							case *ast.BranchStmt:
+								if x.Tok == token.FALLTHROUGH || (x.Tok == token.BREAK && (x.Label != nil || depth == 0)) {
+									found = true
+								}
+							case *ast.ForStmt, *ast.RangeStmt, *ast.SwitchStmt, *ast.TypeSwitchStmt, *ast.SelectStmt:
+								walk(m, depth+1)
+								return false
+							case *ast.FuncLit:
+								return false
+							case *ast.LabeledStmt:
+								found = true
+							}
+							return true
+						})
+					}
+					walk(body, 0)
+					return found
+				}
+				var rewrite func(list []ast.Stmt)
+				conv := func(sw *ast.SwitchStmt) ast.Stmt {
+					if sw.Tag != nil || sw.Init != nil || breaksOut(sw.Body) || len(sw.Body.List) == 0 {
+						return nil
+					}
+					var def *ast.CaseClause
+					var arms []*ast.CaseClause
+					for _, st := range sw.Body.List {
+						cc := st.(*ast.CaseClause)
+						if cc.List == nil {
+							def = cc
+						} else {
+							arms = append(arms, cc)
+						}
+					}
+					if len(arms) == 0 {
+						return nil
+					}
+					// a default clause in the middle keeps its meaning (it is taken last)
+					var first, last *ast.IfStmt
+					for _, cc := range arms {
+						var cond ast.Expr
+						for _, e := range cc.List {
+							pe := ast.Expr(&ast.ParenExpr{X: e})
+							if cond == nil {
+								cond = pe
+							} else {
+								cond = &ast.BinaryExpr{X: cond, Op: token.LOR, Y: pe}
+							}
+						}
+						is := &ast.IfStmt{Cond: cond, Body: &ast.BlockStmt{List: cc.Body}}
+						if first == nil {
+							first = is
+						} else {
+							last.Else = is
+						}
+						last = is
+					}
+					if def != nil {
+						last.Else = &ast.BlockStmt{List: def.Body}
+					}
+					n++
+					return first
+				}
+				rewrite = func(list []ast.Stmt) {
+					for i, st := range list {
+						if sw, ok := st.(*ast.SwitchStmt); ok {
+							if r := conv(sw); r != nil {
+								list[i] = r
+							}
+						}
+					}
+				}
+				ast.Inspect(f, func(nd ast.Node) bool {
+					switch x := nd.(type) {
+					case *ast.BlockStmt:
+						rewrite(x.List)
+					case *ast.CaseClause:
+						rewrite(x.Body)
+					case *ast.CommClause:
+						rewrite(x.Body)
+					}
+					return true
+				})
+			}
 			ast.Inspect(f, func(nd ast.Node) bool {
 				if mode != "rename" {
 					return false
